@@ -775,16 +775,18 @@ func c02MinBelowLimit(c *Ctx) {
 		return hasMax
 	}
 	n := 0
-	instrs(fn, func(_ *ssa.BasicBlock, _ int, ins ssa.Instruction) {
-		sl, ok := ins.(*ssa.Slice)
-		if !ok || ins.Parent() != fn || sl.High == nil || !isMin(sl.High) || !hasOrigin(sl.X, func(o string) bool { return o == "field:Chunker.buf" }) {
-			return
-		}
-		n++
-		okG, _ := guarded(fn, sl, relAcc(token.LSS, isMin, isLimit))
-		c.verdict(okG, "Chunker.Next:scan-needs-room", sl.Pos(), "the boundary scan starts only where min < limit",
-			"the boundary scan is entered although min may equal the limit (min == max): it looks at one more byte before it tests the size, every chunk comes out max+1 bytes long and the index made from them is refused by IndexFromReader")
-	})
+	for _, g := range fnsDeep(fn) { // (the scan may live in a new helper that is handed the limit)
+		instrs(g, func(_ *ssa.BasicBlock, _ int, ins ssa.Instruction) {
+			sl, ok := ins.(*ssa.Slice)
+			if !ok || ins.Parent() != g || sl.High == nil || !isMin(sl.High) || !hasOrigin(sl.X, func(o string) bool { return o == "field:Chunker.buf" }) {
+				return
+			}
+			n++
+			okG, _ := guarded(fn, sl, relAcc(token.LSS, isMin, isLimit))
+			c.verdict(okG, "Chunker.Next:scan-needs-room", sl.Pos(), "the boundary scan starts only where min < limit",
+				"the boundary scan is entered although min may equal the limit (min == max): it looks at one more byte before it tests the size, every chunk comes out max+1 bytes long and the index made from them is refused by IndexFromReader")
+		})
+	}
 	if n == 0 {
 		c.bad("Chunker.Next:scan-needs-room", fn.Pos(), "the hash window initialisation buf[min-window:min] was not found")
 	}
